@@ -273,3 +273,68 @@ Section Provenance.
     split; [exact Hi |]. split; [eapply nth_error_In, Hn |]. split; [apply ensure_cases |]. auto.
   Qed.
 End Provenance.
+
+(** a level that yields geometry is present under its key *)
+Theorem level_present g P levels cfg r hs L ps : snapPolygon g P levels cfg = Ok r ->
+  insertPolygon g P = Ok hs -> In L levels -> snapLevel g (hotLevels g hs) P cfg L = Ok (Some ps) -> In (L, ps) r.
+Proof.
+  intros H Hi HL Hs. unfold snapPolygon in H. rewrite Hi in H. bind_inv H rs Hrs. inversion H; subst. clear H.
+  apply in_flat_map. exists (L, Some ps). split; [| left; reflexivity].
+  apply mapM_ok in Hrs. clear -Hrs HL Hs. induction Hrs as [| a b l bs Hab F IH]; [destruct HL |].
+  destruct HL as [-> | HL]; [| right; apply IH, HL].
+  left. rewrite Hs in Hab. cbn [bind] in Hab. inversion Hab. reflexivity.
+Qed.
+
+(** ** the reverse flag at the level of snapPolygon *)
+Definition rev_related (res res' : list polygon) : Prop :=
+  exists polys pls, res = polys ++ map (fun pl => [pl]) pls /\
+                    res' = map (map (@rev pt)) polys ++ map (fun pl => [pl]) pls /\
+                    Forall (poly_ok 1) polys /\ Forall pl_ok pls.
+
+Lemma levelOut_none polys pls : levelOut polys pls = None <-> levelOut (map (map (@rev pt)) polys) pls = None.
+Proof.
+  unfold levelOut. cbn zeta. destruct polys as [| p polys]; [reflexivity |]. cbn [map app]. split; discriminate.
+Qed.
+
+Lemma levelOut_some polys pls x : Some x = levelOut polys pls -> x = polys ++ map (fun pl => [pl]) pls.
+Proof.
+  unfold levelOut. cbn zeta. destruct (polys ++ map (fun pl : ring => [pl]) pls); [discriminate |].
+  intro H. inversion H. reflexivity.
+Qed.
+
+Theorem snap_reverse_flag g P levels cfg r : snapPolygon g P levels (setRev cfg false) = Ok r ->
+  exists r', snapPolygon g P levels (setRev cfg true) = Ok r' /\
+             Forall2 (fun kv kv' => fst kv = fst kv' /\ rev_related (snd kv) (snd kv')) r r'.
+Proof.
+  unfold snapPolygon. destruct (insertPolygon g P) as [hs | e].
+  - intro H. bind_inv H rs Hrs. inversion H; subst. clear H.
+    assert (Hm : exists rs', mapM (fun L => do r <- snapLevel g (hotLevels g hs) P (setRev cfg true) L; Ok (L, r)) levels = Ok rs' /\
+              Forall2 (fun x x' => fst x = fst x' /\
+                         exists polys pls, snd x = levelOut polys pls /\ snd x' = levelOut (map (map (@rev pt)) polys) pls /\
+                                           Forall (poly_ok 1) polys /\ Forall pl_ok pls) rs rs').
+    { revert rs Hrs. induction levels as [| L ls IH]; intros rs Hrs; cbn [mapM] in *.
+      - inversion Hrs. exists []. split; [reflexivity | constructor].
+      - bind_inv Hrs b Hb. bind_inv Hb o Hres. inversion Hb; subst. bind_inv Hrs bs Hbs. inversion Hrs; subst.
+        pose proof (reverse_flag_only_reverses g (hotLevels g hs) P cfg L) as Hr. rewrite Hres in Hr.
+        destruct Hr as [polys [pls [E1 [E2 [F1 F2]]]]]. rewrite E2. cbn [bind].
+        destruct (IH _ Hbs) as [bs' [E3 F3]]. rewrite E3. cbn [bind]. eexists. split; [reflexivity |].
+        constructor; [| exact F3]. cbn [fst snd]. split; [reflexivity |]. exists polys, pls. auto. }
+    destruct Hm as [rs' [E F]]. rewrite E. cbn [bind]. eexists. split; [reflexivity |].
+    clear -F. induction F as [| [L o] [L' o'] rs rs' [EL [polys [pls [E1 [E2 [F1 F2]]]]]] F IH]; cbn [flat_map]; [constructor |].
+    cbn [fst snd] in *. subst L'.
+    destruct o as [res |].
+    + destruct o' as [res' |]; [| exfalso; symmetry in E2; apply levelOut_none in E2; congruence].
+      cbn [app]. constructor; [| exact IH]. cbn [fst snd]. split; [reflexivity |]. exists polys, pls.
+      apply levelOut_some in E1. apply levelOut_some in E2. auto.
+    + destruct o' as [res' |]; [exfalso; symmetry in E1; apply levelOut_none in E1; congruence |]. exact IH.
+  - intro H. exists r. split; [exact H |]. destruct e; try discriminate. cbn [ignoreOutsideGrid setRev] in H.
+    destruct (ignoreOutsideGrid cfg); inversion H. constructor.
+Qed.
+
+(** the model is a function of its arguments: the same polygon with the same settings gives the same
+    result, whatever the process, the repetition or the iteration order of Go's maps (the ordered maps of
+    the code are modelled as ordered lists; the only unordered iteration, over levels, is covered by
+    [level_order_irrelevant] and [levels_keyed]) *)
+Lemma snap_functional g P levels cfg r1 r2 :
+  snapPolygon g P levels cfg = r1 -> snapPolygon g P levels cfg = r2 -> r1 = r2.
+Proof. intros H1 H2. congruence. Qed.
